@@ -511,6 +511,11 @@ def assemble(repo, spec, rows=None, canary=None, opts=None):
                 for w, t in e['proofs'].items():
                     if w == 'body_start':
                         ed.insert(it['body_start'] + 1, '\n' + t, prio=0)
+                    elif w == 'body_end':
+                        # last thing in the body of a function that returns () : after its final statement
+                        if re.search(r'->', src[it['kw']:it['body_start']]):
+                            raise ToolError('body_end proof position needs a unit-returning function: %s' % path)
+                        ed.insert(it['end'] - 1, ';\n' + t, prio=0)
                     elif w == 'tail':
                         ed.insert(tail_pos(src, mask, it['body_start'], it['end'] - 1), t + indent + '    ', prio=0)
                     elif w.startswith('before_return'):
